@@ -91,6 +91,19 @@ theorem fstep_inv (s : FSt) (e : FEv) (h : FInv s) : FInv (fstep s e) := by
   | resume => exact pump_inv _ ⟨h.total, h.trace, h.closedEmpty, h.idle⟩
   | pause => exact ⟨h.total, h.trace, h.closedEmpty, h.idle⟩
   | lost => exact ⟨h.total, h.trace, h.closedEmpty, h.idle⟩
+  | tick dt =>
+    simp only [fstep]
+    split
+    · exact h
+    · split
+      · exact ⟨h.total, h.trace, h.closedEmpty, h.idle⟩
+      · split
+        · exact ⟨h.total, h.trace, h.closedEmpty, h.idle⟩
+        · rename_i hc
+          have hns : s.started = false := by cases hst : s.started <;> simp_all
+          obtain ⟨ha, hd, hu, hcl⟩ := h.idle hns
+          apply pump_inv
+          exact ⟨by simp [hd], by simp [h.trace, hd, hcl], by intro hh; simp [hcl] at hh, by intro hh; simp at hh⟩
 
 theorem frun_inv (evs : List FEv) : FInv (frun evs) := by
   unfold frun
@@ -140,6 +153,19 @@ theorem quiet_when_paused (s : FSt) (e : FEv) (hp : s.paused = true ∨ s.closed
   | resume => exact absurd rfl he
   | pause => rfl
   | lost => rfl
+  | tick dt =>
+    simp only [fstep]
+    split
+    · rfl
+    · split
+      · rfl
+      · split
+        · rfl
+        · rename_i hc
+          rcases hp with hp | hp | hp
+          · simp [pump, hp]
+          · simp [pump, hp]
+          · simp_all
 
 theorem resume_quiet_when_dead (s : FSt) (h : s.closed = true ∨ s.lost = true) : (fstep s .resume).out = s.out := by
   rcases h with h | h <;> simp [fstep, pump, h]
@@ -153,6 +179,67 @@ theorem resume_finishes (s : FSt) (hs : s.started = true) (hl : s.lost = false) 
 theorem send_unpaused (ps : List Bytes) : (frun [.send ps]).out = ps.map .write ++ [.close] := by
   simp [frun, fstep, pump]
 
+/-- the timer is cancelled for good once a response exists: no event re-arms it -/
+theorem pump_timer (s : FSt) : (pump s).timer = s.timer ∧ (pump s).started = s.started := by
+  unfold pump
+  split
+  · exact ⟨rfl, rfl⟩
+  · split
+    · exact ⟨rfl, rfl⟩
+    · split <;> exact ⟨rfl, rfl⟩
+
+def TInv (s : FSt) : Prop := s.started = true → s.timer = none
+
+theorem fstep_tinv (s : FSt) (e : FEv) (h : TInv s) : TInv (fstep s e) := by
+  unfold TInv at *
+  cases e with
+  | send ps =>
+    simp only [fstep]
+    split
+    · exact h
+    · intro _; rw [(pump_timer _).1]
+  | limit k => exact h
+  | resume => simp only [fstep]; rw [(pump_timer _).1, (pump_timer _).2]; exact h
+  | pause => exact h
+  | lost => intro _; rfl
+  | tick dt =>
+    simp only [fstep]
+    split
+    · exact h
+    · rename_i r hr
+      split
+      · intro hs; rw [h hs] at hr; cases hr
+      · split
+        · intro _; rfl
+        · intro _; rw [(pump_timer _).1]
+
+theorem frun_tinv (evs : List FEv) : TInv (frun evs) := by
+  unfold frun
+  have : ∀ s, TInv s → TInv (evs.foldl fstep s) := by
+    induction evs with
+    | nil => intro s h; simpa using h
+    | cons e es ih => intro s h; exact ih _ (fstep_tinv s e h)
+  exact this _ (by intro h; cases h)
+
+/-- C15 (the other direction): once the request is decided and a response is being written, the passing of time
+    changes NOTHING, however long the transport keeps writing paused: the peer that sent a complete request is not
+    cut off by the request timer while it takes its answer -/
+theorem tick_after_send (evs : List FEv) (dt : Nat) (hs : (frun evs).started = true) :
+    frun (evs ++ [.tick dt]) = frun evs := by
+  have h := frun_tinv evs hs
+  unfold frun at *
+  rw [List.foldl_append]
+  simp only [List.foldl_cons, List.foldl_nil, fstep, h]
+
+/-- the timer fires at most once, and only when no response exists: a connection on which nothing was decided within
+    `requestTimeout8` eighths of a second gets the timeout response through the same pump -/
+theorem tick_fires (s : FSt) (dt r : Nat) (ht : s.timer = some r) (hd : r ≤ dt) (hs : s.started = false) (hl : s.lost = false) :
+    fstep s (.tick dt) = pump { s with started := true, unsent := timeoutPieces, all := timeoutPieces, timer := none } := by
+  simp [fstep, ht, hs, hl, Nat.not_lt.mpr hd]
+
+example : (frun [.tick 240]).out = [.write (strOf "40 Request timeout\r\n"), .close] := by decide
+example : (frun [.tick 239, .send [[1]], .tick 500]).out = [.write [1], .close] := by decide
+example : (frun [.limit 0, .send [[1], [2]], .tick 100000]).out = [.write [1]] := by decide
 example : (frun [.limit 0, .send [[1], [2], [3]], .lost]).out = [.write [1]] := by decide
 example : (frun [.limit 0, .send [[1], [2], [3]], .resume]).out = [.write [1], .write [2], .write [3], .close] := by decide
 example : (frun [.limit 1, .send [[1], [2], [3]], .limit 0, .resume, .resume]).out = [.write [1], .write [2], .write [3], .close] := by decide
